@@ -5,6 +5,9 @@ import (
 	"encoding/json"
 	"errors"
 	"fmt"
+	"io"
+	"net/http"
+	"net/url"
 	"os"
 	"os/exec"
 	"path/filepath"
@@ -19,6 +22,7 @@ import (
 	"github.com/anishathalye/porcupine"
 	"pgregory.net/rapid"
 
+	"github.com/bartventer/httpcache"
 	"github.com/bartventer/httpcache/store/driver"
 	"github.com/bartventer/httpcache/store/fscache"
 
@@ -112,6 +116,8 @@ func execC15(t *testing.T, sc *world.Scenario) (*oracle.Result, string) {
 		return execC15Conc(c, r)
 	case "timeout":
 		return execC15Timeout(c, r)
+	case "timeout-transport":
+		return execC15TimeoutTransport(c, r)
 	}
 	return r, "unknown case kind " + c.Kind
 }
@@ -335,6 +341,127 @@ func execC15Timeout(c c15Case, r *oracle.Result) (*oracle.Result, string) {
 		}
 	}
 	return r, ""
+}
+
+type rtFunc func(*http.Request) (*http.Response, error)
+
+func (f rtFunc) RoundTrip(r *http.Request) (*http.Response, error) { return f(r) }
+
+// (c) transport level, real time: a transport whose file-system backend times out on (almost)
+// every operation stores a series of different responses; the writes it abandoned may finish
+// later. A second transport on the same directory then serves each URI from the store or from
+// the origin - but never another URI's response, a spliced or a truncated one.
+func execC15TimeoutTransport(c c15Case, r *oracle.Result) (*oracle.Result, string) {
+	dir := c15TempDir(false)
+	defer os.RemoveAll(dir)
+	dsn := "fscache://" + dir + "?appname=app&timeout=" + time.Duration(c.TimeoutNs).String()
+	if c.Enc {
+		dsn += "&encrypt=on&encrypt_key=" + url.QueryEscape(c14EncKey)
+	}
+	nurl := max(c.Rounds, 2)
+	bodyOf := func(i, gen int) []byte {
+		return append([]byte(fmt.Sprintf("<uri %d generation %d>", i, gen)), world.ExpandValue(c.NewLen+i*977, c.Seed+uint64(i*31+gen))...)
+	}
+	gen := 0
+	origin := rtFunc(func(req *http.Request) (*http.Response, error) {
+		var i int
+		fmt.Sscanf(req.URL.Path, "/c15/t/%d", &i)
+		b := bodyOf(i, gen)
+		h := http.Header{}
+		h.Set("Date", time.Now().UTC().Format(http.TimeFormat))
+		h.Set("Cache-Control", "max-age=100000")
+		h.Set("X-Uri", fmt.Sprint(i))
+		return &http.Response{StatusCode: 200, Status: "200 OK", Proto: "HTTP/1.1", ProtoMajor: 1, ProtoMinor: 1, Header: h,
+			Body: io.NopCloser(bytes.NewReader(b)), ContentLength: int64(len(b)), Request: req}, nil
+	})
+	get := func(rt http.RoundTripper, i int, reload bool) (string, []byte, string, error) {
+		req, _ := http.NewRequest("GET", fmt.Sprintf("http://a.test/c15/t/%d", i), nil)
+		if reload {
+			req.Header.Set("Cache-Control", "no-cache")
+		}
+		resp, err := rt.RoundTrip(req)
+		if err != nil {
+			return "", nil, "", err
+		}
+		b, rerr := io.ReadAll(resp.Body)
+		_ = resp.Body.Close()
+		if rerr != nil {
+			return "", nil, "", rerr
+		}
+		return resp.Header.Get("X-Httpcache-Status"), b, resp.Header.Get("X-Uri"), nil
+	}
+	hasty := httpcache.NewTransport(dsn, httpcache.WithUpstream(origin))
+	for gen = 0; gen < 3; gen++ {
+		for i := 0; i < nurl; i++ {
+			_, b, _, err := get(hasty, i, gen > 0)
+			r.Evals++
+			if err != nil {
+				r.Fail("C15", "timeout-breaks-exchange", i, "round trip through a backend with operation timeout %v failed: %v", time.Duration(c.TimeoutNs), err)
+				return r, ""
+			}
+			if !bytes.Equal(b, bodyOf(i, gen)) {
+				r.Fail("C15", "timeout-damages-forwarded-body", i, "the response forwarded for URI %d differs from the origin's (%d vs %d bytes)", i, len(b), len(bodyOf(i, gen)))
+				return r, ""
+			}
+		}
+	}
+	gen = 2
+	// let abandoned writers finish
+	deadline := time.Now().Add(3 * time.Second)
+	for time.Now().Before(deadline) {
+		left := false
+		for _, f := range filesUnder(dir) {
+			if strings.Contains(filepath.Base(f), ".tmp-") {
+				left = true
+			}
+		}
+		if !left {
+			break
+		}
+		time.Sleep(5 * time.Millisecond)
+	}
+	calm := "fscache://" + dir + "?appname=app"
+	if c.Enc {
+		calm += "&encrypt=on&encrypt_key=" + url.QueryEscape(c14EncKey)
+	}
+	second := httpcache.NewTransport(calm, httpcache.WithUpstream(origin))
+	hits := 0
+	for i := 0; i < nurl; i++ {
+		status, b, xuri, err := get(second, i, false)
+		r.Evals++
+		if err != nil {
+			r.Fail("C15", "truncated-response-after-timeout", i, "enc=%v timeout=%v: a second transport on the same directory fails to deliver URI %d: %v (a stored response that ends early)", c.Enc, time.Duration(c.TimeoutNs), i, err)
+			return r, ""
+		}
+		ok := false
+		for g := 0; g < 3; g++ {
+			if bytes.Equal(b, bodyOf(i, g)) {
+				ok = true
+			}
+		}
+		if status == "HIT" {
+			hits++
+		}
+		if !ok || xuri != fmt.Sprint(i) {
+			r.Fail("C15", "spliced-response-after-timeout", i, "enc=%v timeout=%v: URI %d is answered (%s) with %d bytes that are no response the origin ever gave for it (header says URI %s; body starts %q)", c.Enc, time.Duration(c.TimeoutNs), i, status, len(b), xuri, truncS(string(b[:min(len(b), 40)])))
+			return r, ""
+		}
+	}
+	if hits > 0 {
+		r.Label("served-from-store-after-timeouts")
+		r.NTKeys = append(r.NTKeys, fmt.Sprintf("tt/%v/%d/%d/%d", c.Enc, c.NewLen, c.TimeoutNs, c.Seed))
+	}
+	r.NonTrivial = len(r.NTKeys) > 0
+	return r, ""
+}
+
+func TestC15TimeoutTransport(t *testing.T) {
+	c := checkC15
+	c.Gen = func(rt *rapid.T) *world.Scenario {
+		return mkC15(c15Case{Kind: "timeout-transport", Enc: gen.Pct(rt, "enc", 30), NewLen: gen.Pick(rt, "len", 2000, 60000, 300000, 1000000),
+			TimeoutNs: gen.Pick(rt, "to", int64(1), 1, 20_000, 200_000, 2_000_000), Rounds: rapid.IntRange(2, 6).Draw(rt, "urls"), Seed: uint64(rapid.IntRange(1, 1<<20).Draw(rt, "seed"))})
+	}
+	RunCheck(t, c)
 }
 
 // TestC15Child is the writer process of the crash cases (not a test of its own).
